@@ -16,8 +16,8 @@ type Value interface{}
 
 // StrV is an immutable string with concrete length and per-byte terms.
 type StrV struct {
-	b []*Term // each BV8
-	c string  // valid iff conc
+	b    []*Term // each BV8
+	c    string  // valid iff conc
 	conc bool
 }
 
